@@ -95,7 +95,7 @@ class BiLinearForm(_Form):
                 values_e = (values_e_pg * dX_e_pg).integrate()
 
                 # add data
-                data[:, i, j] = values_e
+                data[:, i, j] = np.reshape(values_e, groupElem.Ne)
 
         return data
 
